@@ -46,7 +46,7 @@ func main() {
 	if o.Thorough {
 		n = 2500
 	}
-	users := []string{"u1@example.com", "u2@example.com"}
+	users := []string{"u1@example.com", "u2@example.com", "u3echo@example.com"}
 	clients := map[string]*world.Client{}
 	second := map[string]*world.Client{}
 	for _, u := range users {
@@ -82,6 +82,28 @@ func main() {
 		} else {
 			rep.Hit("shape:single")
 		}
+	}
+	// ---- the point the octet-level theorem excludes (Props.C02.tree_as_written: `fresh`): a part whose text contains lines
+	// that look like the delimiters the *server* generates for the containers of this message (its boundaries are a function of
+	// the part's row id, "----=_Part_<Subtype>_<id>"); a fresh user's first messages have small row ids ----
+	for k, sub := range []string{"mixed", "alternative", "related"} {
+		var lines []string
+		for id := 1; id <= 40; id++ {
+			lines = append(lines, fmt.Sprintf("------=_Part_%s%s_%d", strings.ToUpper(sub[:1]), sub[1:], id), "Content-Type: text/plain", "", fmt.Sprintf("a line of part one that looks like a part of its own (%d)", id))
+		}
+		tok := fmt.Sprintf("c02echo%d", k)
+		tree := &mimegen.Node{Multi: true, Subtype: sub, Children: []*mimegen.Node{
+			{CType: "text/plain", Charset: "utf-8", CTE: "7bit", Content: []byte("above\r\n" + strings.Join(lines, "\r\n") + "\r\nbelow\r\n")},
+			{CType: "text/plain", Charset: "utf-8", CTE: "7bit", Content: []byte("the second and last part\r\n")}}}
+		it := &item{token: tok, tree: tree, user: "u3echo@example.com", via: "append"}
+		it.top = []string{"From: a@example.org", "To: u3echo@example.com", "Subject: " + tok}
+		it.msg = tree.Serialize(it.top)
+		if r := clients[it.user].Append("INBOX", "", it.msg); !r.OK() {
+			rep.Violate("impl-violation", "store", fmt.Sprintf("well-formed message %s refused by APPEND: %s", it.token, r.Tagged), []string{"msg " + hx.H(it.msg)})
+			continue
+		}
+		items = append(items, it)
+		rep.Hit("shape:delimiter-like-lines")
 	}
 	// ---- fetch every message in two sessions (after everything has been stored: the history is all the others) ----
 	emlDir := dir + "/eml"
